@@ -13,6 +13,7 @@ import Robsd.Model.Orch
 import Robsd.Model.Flock
 import Robsd.Model.Arena
 import Robsd.Model.RegressHtml
+import Robsd.Model.Runner
 /-
   robsd_model: the executable models behind a line protocol.
   One request per line: `<component> <op> <args…>`; byte strings are hex
@@ -218,8 +219,30 @@ def rhtmlRun (order : List Nat) (invs : List RegressHtml.Invocation) : String :=
       | some (st, link) => (String.fromUTF8! (ByteArray.mk st.name.toArray)) ++ "," ++ toHex link))
   s!"valid={if valid then 1 else 0} cols={cols} rows={rows}"
 
+def wstatusOf (t : String) : Runner.WStatus :=
+  if t.startsWith "e" then .exited ((t.drop 1).toString.toNat?.getD 0)
+  else if t.startsWith "s" then .signaled ((t.drop 1).toString.toNat?.getD 0)
+  else .other
+
+/-- "k:status" = reapable from poll/iteration k on; "-" = never -/
+def fromOn (t : String) : Nat → Option Runner.WStatus :=
+  match t.splitOn ":" with
+  | k :: st :: [] => fun i => if k.toNat?.getD 0 ≤ i then some (wstatusOf st) else none
+  | _ => fun _ => none
+
+def runnerRun (fuel : Nat) (sig nat aterm akill : String) : String :=
+  let sg : Nat → Option Runner.Sig := match sig.splitOn ":" with
+    | k :: s :: [] => fun i => if i = k.toNat?.getD 0 then some (if s == "alrm" then .alrm else .term) else none
+    | _ => fun _ => none
+  let e : Runner.Env := ⟨sg, fromOn nat, fromOn aterm, fromOn akill⟩
+  let r := Runner.run e fuel
+  let acts := r.1.map fun a => match a with
+    | .killTerm => "term" | .killKill => "kill" | .reap _ => "reap" | .giveUp => "giveup" | .running => "running"
+  s!"{r.2} " ++ ",".intercalate acts
+
 def handle (ws : List String) : String :=
   match ws with
+  | "runner" :: fuel :: sig :: nat :: aterm :: akill :: [] => runnerRun (fuel.toNat?.getD 0) sig nat aterm akill
   | "rhtml" :: order :: invs => rhtmlRun (natList order) (invs.filterMap rhtmlInv)
   | "arena" :: hdr :: fsz :: pz :: csz :: ops :: [] =>
     let n := fun (x : String) => x.toNat?.getD 0
